@@ -23,6 +23,8 @@ pub mod local;
 pub mod metrics;
 pub mod recursive;
 pub mod util;
+#[cfg(resolved_verif)]
+pub mod verif;
 
 use std::net::SocketAddr;
 use tracing::Instrument;
